@@ -205,7 +205,8 @@ def gen_case(seed, tier):
                     tbs[i] = tbs[i][:j] + tbs[i][j + 1:]
                 else:
                     tbs[i] = tbs[i][:j]
-    return {"config": config, "tbs": tbs, "orders": orders, "steps": [], "add_order": fl.choice([0, 0, fl.randrange(1, 1 << 30)])}
+    return {"config": config, "tbs": tbs, "orders": orders, "steps": [], "add_order": fl.choice([0, 0, fl.randrange(1, 1 << 30)]),
+            "rerun": fl.random() < 0.3}
 
 
 # ====================================================================================================================
@@ -690,6 +691,19 @@ def simulate(case, order):
         final = None
         decisions = S.decisions
         end = sim._engine.now
+        if case.get("rerun"):
+            # the same simulator once more after reset(): clocks, replaced circuits (their wake-up at time 0 included) and
+            # testbenches start over; the observations are those of the first run
+            first = list(log)
+            del log[:]
+            sim.reset()
+            sim.run()
+            if log != first:
+                n = next((j for j, (a, b) in enumerate(zip(log, first)) if a != b), min(len(log), len(first)))
+                raise Violation("differs_after_reset", n, {"order": order, "entry": n, "first_run": first[n] if n < len(first) else None,
+                                                           "after_reset": log[n] if n < len(log) else None})
+            del log[:]
+            log.extend(first)
     return log, decisions, end
 
 
